@@ -141,7 +141,9 @@ func (e *Engine) verifyContract(ct *Contract) (rep *FuncReport) {
 					rep.Status = "outside-subset"
 					rep.Reason = "engine cannot interpret this body/contract combination: " + re.Error()
 				} else {
-					panic(r)
+					// any other failure of the engine's own rules (a value shape or type it has no case for): same treatment
+					rep.Status = "outside-subset"
+					rep.Reason = "engine cannot interpret this body/contract combination: " + fmt.Sprint(r)
 				}
 			}
 			rep.obls = nil
